@@ -306,3 +306,12 @@ def check(model, rep, tier):
 
   # ---------------------------------------------------------------- ORDER
   rules_order.check(model, rep, prop='C04')
+
+  # ---------------------------------------------------------------- dependencies
+  rep.depends('C10', ['CACHE-KEY'],
+              'which constructs are routed depends on the option set; the code '
+              'served from the cache must have been produced under the requested '
+              'options')
+  rep.depends('C20', ['OPT-FIELDS', 'OPT-EQHASH'],
+              'option sets that differ in a feature must not compare equal as '
+              'cache keys')
